@@ -150,7 +150,7 @@ def gen_workbook(rng: random.Random):
         ])
         irows.append({"type": "create_triggers", "sheet_name": "trig"})
     # tags
-    ih2 = ih + ["tags.1", "tags.2"]
+    ih2 = ih + ["group", "tags.1", "tags.2"]
     for r in irows:
         if r["type"] == "create_flow" and r["sheet_name"] != "main" and rng.random() < 0.5:
             r["tags.1"] = rng.choice(["a", "b"])
@@ -791,6 +791,9 @@ def replay(path):
             print(f"fresh == fresh under PYTHONHASHSEED={rp['hashseed']} (canonical):", same_seed)
             if not same_seed:
                 print(" first difference:", bijection_problems({"r": F["result"], "e": F["exc"], "l": F["logs"]}, {"r": R["result"], "e": R["exc"], "l": R["logs"]}, given_ids(spec))[:2])
+        print("invented uuids shared by the two runs:", sorted(set(F["invented"]) & set(U["invented"]))[:3])
+        bp = bijection_problems(F["result"], U["result"], given_ids(spec))
+        print("two-way bijection on invented uuids between the runs:", "ok" if not bp else bp[:2])
         same = canon_out(spec, F) == canon_out(spec, U)
         print("fresh == used (canonical):", same)
         if not same:
